@@ -62,7 +62,7 @@ CHECKS = {
     text='Theorems (Coq, any state, any sub-evaluator returning literals unchanged): every rewrite rule of optimize (if/do/&&/||/+/* folding) is an equation of the evaluator: '
          'same value, same type, same state; folded operands are literals only; T-opt for a fragment, congruence included (OptRo.v): for every expression built from '
          'integer/boolean/string literals, names, + - * ** mod, comparison, logic, bitwise operators, slice, if and do, nested arbitrarily, a completed evaluation of the '
-         'unoptimised expression is reproduced (value and state) by the optimised one. PARTIAL: expressions outside the fragment (binders, effects, data positions) and float products are decided by the '
+         'unoptimised expression is reproduced (value and state) by the optimised one; extended (OptLet.v) to programs with while, print, set and let nested arbitrarily (same value, output, assignments and frames). PARTIAL: expressions outside that fragment (functions, quoted data, scans) and float products are decided by the '
          'differential check (with vs without the pass, exhaustive small trees).' + DIFF,
     technique='Coq proof (each optimizer rule is an evaluator equation) + differential correspondence'),
  'C09': dict(
